@@ -47,8 +47,9 @@ import (
 const envDefaults = "VERIF_C20_DEFAULTS"
 
 type dRoundSpec struct {
-	N  int `json:"n"`  // concurrent passphrase operations
-	WF int `json:"wf"` // 0 = library default (no SetWorkFactor)
+	N     int  `json:"n"`     // concurrent passphrase operations
+	WF    int  `json:"wf"`    // 0 = library default (no SetWorkFactor)
+	Mixed bool `json:"mixed"` // the unshared values use work factor 16: short operations nested inside long ones
 }
 
 type dJob struct {
@@ -74,11 +75,15 @@ type dRoundOut struct {
 	Ops         []dOpOut   `json:"ops"`
 	MaxInFlight int        `json:"max_in_flight"` // passphrase operations in flight at once
 	Completed   int        `json:"completed"`
+	StateFails  []failOut  `json:"state_fails"`
+	Goroutines  int        `json:"goroutines_after"`
+	FDs         int        `json:"fds_after"`
 }
 
 type dOut struct {
 	Rounds []dRoundOut `json:"rounds"`
 	MaxRSS int64       `json:"max_rss_kb"`
+	Growth []failOut   `json:"growth_fails"`
 }
 
 const (
@@ -91,6 +96,7 @@ type dOp struct {
 	pass   bool // a passphrase operation
 	shared bool
 	run    func() (fail, what string)
+	delay  time.Duration // staggered start
 
 	call, ret int64
 	fail      string
@@ -101,6 +107,9 @@ type dOp struct {
 // goroutine dump.
 func dWorker(op *dOp, start <-chan struct{}, progress *os.File, mu *sync.Mutex, round int) {
 	<-start
+	if op.delay > 0 {
+		time.Sleep(op.delay)
+	}
 	op.call = tick.Add(1)
 	func() {
 		defer func() {
@@ -156,6 +165,7 @@ func runDefaultsChild(jobPath string) {
 	}
 	var out dOut
 	var pmu sync.Mutex
+	var gSeries, fdSeries []int
 	x1, e1, r1 := keys.NewX("X1"), keys.LoadEd("ed1"), keys.LoadRSA("rsa1")
 
 	for ri, spec := range jb.Rounds {
@@ -163,13 +173,13 @@ func runDefaultsChild(jobPath string) {
 		if wf == 0 {
 			wf = defaultWF
 		}
-		newRec := func(pass string) *age.ScryptRecipient {
+		newRec := func(pass string, opWF int) *age.ScryptRecipient {
 			r, err := age.NewScryptRecipient(pass)
 			if err != nil {
 				panic(err)
 			}
-			if spec.WF != 0 {
-				r.SetWorkFactor(spec.WF)
+			if spec.WF != 0 || opWF != wf {
+				r.SetWorkFactor(opWF)
 			}
 			return r
 		}
@@ -180,7 +190,7 @@ func runDefaultsChild(jobPath string) {
 			}
 			return i
 		}
-		sharedRec, sharedID := newRec(dPassA), newID(dPassA)
+		sharedRec, sharedID := newRec(dPassA, wf), newID(dPassA)
 		xr, xi := x1.Recipient(), x1.Identity()
 		er, ei := e1.Recipient(), e1.Identity()
 		rr := r1.Recipient()
@@ -189,12 +199,14 @@ func runDefaultsChild(jobPath string) {
 		ops := make([]*dOp, 0, spec.N+3)
 		type encOut struct {
 			op   *dOp
+			wf   int
 			pass string
 			pt   []byte
 			file []byte
 		}
 		var encs []*encOut
 		type decIn struct {
+			wf   int
 			pass string
 			pt   []byte
 			file []byte
@@ -204,16 +216,21 @@ func runDefaultsChild(jobPath string) {
 			pt := mon.DetBytes(fmt.Sprintf("c20/defaults/%d/%d/%d", jb.Seed, ri, g), 100+g)
 			shared := g%2 == 0
 			pass := dPassA
+			opWF := wf
 			if !shared {
 				pass = fmt.Sprintf("c20 defaults own passphrase %d", g)
+				if spec.Mixed {
+					opWF = 16
+				}
 			}
+			stagger := time.Duration(g) * 1500 * time.Microsecond
 			if g%4 < 2 { // encrypt
 				rec := sharedRec
 				if !shared {
-					rec = newRec(pass)
+					rec = newRec(pass, opWF)
 				}
-				eo := &encOut{pass: pass, pt: pt}
-				op := &dOp{name: fmt.Sprintf("enc:scrypt:%s", map[bool]string{true: "shared", false: "own"}[shared]), pass: true, shared: shared}
+				eo := &encOut{pass: pass, pt: pt, wf: opWF}
+				op := &dOp{name: fmt.Sprintf("enc:scrypt:%s", map[bool]string{true: "shared", false: "own"}[shared]), pass: true, shared: shared, delay: stagger}
 				op.run = func() (string, string) {
 					f, err := dEncrypt(pt, rec)
 					if err != nil {
@@ -230,9 +247,9 @@ func runDefaultsChild(jobPath string) {
 				if !shared {
 					id = newID(pass)
 				}
-				di := &decIn{pass: pass, pt: pt}
+				di := &decIn{pass: pass, pt: pt, wf: opWF}
 				decs = append(decs, di)
-				op := &dOp{name: fmt.Sprintf("dec:scrypt:%s", map[bool]string{true: "shared", false: "own"}[shared]), pass: true, shared: shared}
+				op := &dOp{name: fmt.Sprintf("dec:scrypt:%s", map[bool]string{true: "shared", false: "own"}[shared]), pass: true, shared: shared, delay: stagger}
 				op.run = func() (string, string) {
 					got, err := dDecrypt(di.file, id)
 					if err != nil {
@@ -293,12 +310,17 @@ func runDefaultsChild(jobPath string) {
 			salts[i], fks[i], nonces[i] = mon.Bytes(rng, 16), mon.Bytes(rng, 16), mon.Bytes(rng, 16)
 		}
 		mon.ParN(4, len(decs), func(i int) {
-			st := refage.ScryptWrap(fks[i], decs[i].pass, salts[i], wf)
+			st := refage.ScryptWrap(fks[i], decs[i].pass, salts[i], decs[i].wf)
 			decs[i].file = refage.BuildFile(fks[i], []refage.Stanza{st}, nonces[i], decs[i].pt)
 		})
 		debug.FreeOSMemory()
 
-		// the concurrent phase
+		// the concurrent phase: staggered starts (1.5 ms apart), and with Mixed
+		// short derivations nested inside long ones
+		sb := takeState()
+		if ri == 0 {
+			gSeries, fdSeries = append(gSeries, sb.goroutines), append(fdSeries, sb.fds)
+		}
 		start := make(chan struct{})
 		var wg sync.WaitGroup
 		for _, op := range ops {
@@ -310,6 +332,10 @@ func runDefaultsChild(jobPath string) {
 		}
 		close(start)
 		wg.Wait()
+		settle(sb.goroutines)
+		sa := takeState()
+		stateFails := stateDiff(sb, sa, fmt.Sprintf("library-defaults stage, %d concurrent passphrase operations", spec.N), map[string]any{"stage": "library defaults", "round": ri, "n": spec.N})
+		gSeries, fdSeries = append(gSeries, sa.goroutines), append(fdSeries, sa.fds)
 		debug.FreeOSMemory()
 
 		// sequential results of the encryptions (reference, 4 at a time)
@@ -324,8 +350,8 @@ func runDefaultsChild(jobPath string) {
 				e.op.fail, e.op.what = "reference-cannot-decrypt", err.Error()
 			case !bytes.Equal(o.Plaintext, e.pt):
 				e.op.fail, e.op.what = "plaintext-differs", "reference got another plaintext"
-			case len(o.Header.Stanzas) != 1 || len(o.Header.Stanzas[0].Args) != 2 || o.Header.Stanzas[0].Args[1] != fmt.Sprint(wf):
-				e.op.fail, e.op.what = "work-factor", fmt.Sprintf("stanza arguments %v, expected work factor %d", o.Header.Stanzas[0].Args, wf)
+			case len(o.Header.Stanzas) != 1 || len(o.Header.Stanzas[0].Args) != 2 || o.Header.Stanzas[0].Args[1] != fmt.Sprint(e.wf):
+				e.op.fail, e.op.what = "work-factor", fmt.Sprintf("stanza arguments %v, expected work factor %d", o.Header.Stanzas[0].Args, e.wf)
 			}
 		})
 		debug.FreeOSMemory()
@@ -343,7 +369,7 @@ func runDefaultsChild(jobPath string) {
 			}
 		}
 
-		ro := dRoundOut{Spec: spec, WorkFactor: wf}
+		ro := dRoundOut{Spec: spec, WorkFactor: wf, StateFails: stateFails, Goroutines: sa.goroutines, FDs: sa.fds}
 		var pops []*dOp
 		for _, op := range ops {
 			ro.Ops = append(ro.Ops, dOpOut{Name: op.name, Fail: op.fail, What: op.what, Call: op.call, Ret: op.ret, Pass: op.pass, Share: op.shared})
@@ -365,6 +391,7 @@ func runDefaultsChild(jobPath string) {
 			}
 		}
 		out.Rounds = append(out.Rounds, ro)
+		out.Growth = append(growthFails("goroutines", gSeries, "library-defaults stage"), growthFails("open-files", fdSeries, "library-defaults stage")...)
 		var ru syscall.Rusage
 		if syscall.Getrusage(syscall.RUSAGE_SELF, &ru) == nil {
 			out.MaxRSS = ru.Maxrss
@@ -470,9 +497,9 @@ func runDefaults(bin, scratch string, r *mon.Run) *defaultsResult {
 
 	jb := dJob{Seed: r.Seed, Progress: filepath.Join(scratch, "defaults.progress"), Out: filepath.Join(scratch, "defaults.out.json")}
 	if r.Thorough() {
-		jb.Rounds = []dRoundSpec{{12, 0}, {8, 0}, {16, 0}, {12, 0}, {16, 17}, {8, 19}, {4, 20}, {16, 0}}
+		jb.Rounds = []dRoundSpec{{12, 0, false}, {8, 0, true}, {16, 0, false}, {12, 0, true}, {16, 17, false}, {8, 19, false}, {4, 20, false}, {16, 0, true}}
 	} else {
-		jb.Rounds = []dRoundSpec{{12, 0}, {8, 0}}
+		jb.Rounds = []dRoundSpec{{12, 0, false}, {8, 0, true}}
 	}
 	jobPath := filepath.Join(scratch, "defaults.job.json")
 	b, _ := json.Marshal(jb)
